@@ -10,7 +10,7 @@ from . import ops as O
 from .ops import And, Or, Not, ite, Implies
 from .tensor import Tn, Unsupported
 from .values import (SymRaise, PathEnd, SStr, DType, Opaque, LibFn, RepoFn, CatList, StackList, KeyedLists)
-from .interp import Ctx, Interp, Obligation
+from .interp import Ctx, Interp, Obligation, PrefixStop
 from .bind import BindError
 
 
@@ -352,7 +352,7 @@ def verify_function(world, contract, report=None, only_cfg=None, scope=None):
             if npaths > MAX_PATHS:
                 rep.unsupported.append((cname, 'path limit exceeded'))
                 break
-            ctx = Ctx(prefix, fname='%s[%s]' % (short, cname), opts={'small_scope': scope is not None})
+            ctx = Ctx(prefix, fname='%s[%s]' % (short, cname), opts={'small_scope': scope is not None, 'stop_before': getattr(contract, 'stop_before', None)})
             ctx.modifies = set(contract.modifies)
             interp = Interp(ctx, world)
             outcome = None
@@ -371,6 +371,8 @@ def verify_function(world, contract, report=None, only_cfg=None, scope=None):
                     outcome = ('ret', r)
                 except SymRaise as e:
                     outcome = ('raise', e.kind, e.site)
+                except PrefixStop as ps:
+                    outcome = ('prefix', ps.env)
             except PathEnd:
                 outcome = None
             except Unsupported as e:
@@ -388,7 +390,12 @@ def verify_function(world, contract, report=None, only_cfg=None, scope=None):
                 rep.paths += 1
                 pid = ''.join('1' if d else '0' for d in ctx.taken) or 'e'
                 try:
-                    if outcome[0] == 'ret':
+                    if outcome[0] == 'prefix':
+                        rep.returns += 1
+                        ctx.oblige('p%s/raises_iff:not-rejected-when-reaching-anchor' % pid, Not(contract.rejects(a, cfg)), 'raises')
+                        for label, f in contract.post_prefix(a, NS(**outcome[1]), cfg):
+                            ctx.oblige('p%s/ensures:%s' % (pid, label), f, 'ensures')
+                    elif outcome[0] == 'ret':
                         rep.returns += 1
                         ctx.oblige('p%s/raises_iff:not-rejected-when-returning' % pid, Not(contract.rejects(a, cfg)), 'raises')
                         spec = contract.result(a, cfg)
@@ -436,7 +443,7 @@ def verify_fragment(world, contract, report=None, only_cfg=None, scope=None):
     import ast as _ast
     t0 = time.time()
     rep = report or FunctionReport(contract.qualname)
-    short = contract.qualname.replace('tangermeme.', '') + '#loop%d-body' % contract.loop_ordinal
+    short = contract.qualname.replace('tangermeme.', '') + '#loop%s-body' % contract.loop_ordinal
     try:
         pyfn = world.bind.resolve(contract.qualname)
         fd = world.bind.function_ast(pyfn)
@@ -445,12 +452,24 @@ def verify_fragment(world, contract, report=None, only_cfg=None, scope=None):
         return rep
     ids = loop_ordinals(fd)
     node = None
-    for n in _ast.walk(fd):
-        if isinstance(n, (_ast.For, _ast.While)) and ids.get(id(n)) == contract.loop_ordinal:
-            node = n
-    if node is None:
-        rep.unsupported.append(('bind', 'loop %d not found' % contract.loop_ordinal))
-        return rep
+    rng = getattr(contract, 'stmt_range', None)
+    if rng is not None:
+        # a run of top-level statements [start anchor, stop anchor)
+        norm = lambda st: _ast.unparse(st).replace('\n', ' ')
+        i0 = [i for i, st in enumerate(fd.body) if norm(st).startswith(rng[0])]
+        i1 = [i for i, st in enumerate(fd.body) if norm(st).startswith(rng[1])]
+        if len(i0) != 1 or len(i1) != 1 or i1[0] <= i0[0]:
+            rep.unsupported.append(('bind', 'statement range %r not found uniquely' % (rng,)))
+            return rep
+        node = types.SimpleNamespace(body=fd.body[i0[0]:i1[0]])
+        short = contract.qualname.replace('tangermeme.', '') + '#stmts'
+    else:
+        for n in _ast.walk(fd):
+            if isinstance(n, (_ast.For, _ast.While)) and ids.get(id(n)) == contract.loop_ordinal:
+                node = n
+        if node is None:
+            rep.unsupported.append(('bind', 'loop %d not found' % contract.loop_ordinal))
+            return rep
     for cfg in contract.configs():
         cname = contract.cfg_name(cfg)
         if only_cfg is not None and cname != only_cfg:
